@@ -435,6 +435,7 @@ class Interp:
         self.stack: List[str] = []
         self.sched = None      # set by fv.conc for multi-threaded exploration
         self.lt = None
+        self.panicking = False          # an unwind is in flight (std::thread::panicking)
 
     # ---- scalars ---------------------------------------------------------------------
     def sc(self, v, ty):
@@ -1026,6 +1027,7 @@ class Interp:
                 except Unwind as u:
                     if isinstance(t.unwind, int):
                         unwinding = u
+                        self.panicking = True
                         bidx = t.unwind
                         continue
                     raise
@@ -1039,12 +1041,18 @@ class Interp:
             elif k == 'drop':
                 try:
                     v = self.read_place(fr, t.place) if (t.place.proj or t.place.local in fr.locals) else None
+                    if v is None and not t.place.proj:
+                        # a zero-sized local is never assigned in MIR; if its type has a Drop impl in the crate the drop still runs it
+                        tyn = M.strip_generics(fn.locals.get(t.place.local, '')).split('::')[-1]
+                        if tyn in self.env.drop_impls:
+                            v = Agg(tyn, None, [])
                     if v is not None:
                         self.drop_value(v, 'drop(%s) in %s' % (t.place, fn.name))
                         # moved-out: the slot is dead now
                 except Unwind as u:
                     if isinstance(t.unwind, int):
                         unwinding = u
+                        self.panicking = True
                         bidx = t.unwind
                         continue
                     raise
@@ -1057,6 +1065,7 @@ class Interp:
                     self.panics.append(u.msg + ' @ ' + str(t.span))
                     if isinstance(t.unwind, int):
                         unwinding = u
+                        self.panicking = True
                         bidx = t.unwind
                         continue
                     raise u
